@@ -1,5 +1,5 @@
 """Source of truth for MANIFEST.json (python mc/gen_manifest.py regenerates it)."""
-HOOK_COMMITS = []
+HOOK_COMMITS = ["4f66613"]
 NOTES = ("All checks are bounded-exhaustive explorations of the real code (no sampling): engine H enumerates every operation "
          "history up to a stated depth and compares the live object with a fresh build of the final configuration; engine L "
          "enumerates a declared input lattice and compares with an independent reference model. known_findings.json lists "
